@@ -733,4 +733,53 @@ def r7_19(ctx):
     ctx.floor(n, 2, "definitions of widths before the padding test")
 
 
-RULES = [r7_1, r7_2, r7_3, r7_4, r7_5, r7_6, r7_7, r7_8, r7_9, r7_10, r7_11, r7_12, r7_13, r7_14, r7_15, r7_16, r7_17, r7_18, r7_19]
+def r7_20(ctx):
+    ctx.rule("R7.20", "every column has one cell per row (sibling agreement between the two ways a column comes into being): the cells of row k are the k-th entries of each column's cell list and _render zips the columns, so a Column appended to Table.columns while rows exist must first be given one blank cell per existing row - add_row does so for the columns it creates implicitly, add_column must too; otherwise zip() cuts every row at the shortest column (rows added before vanish) and later cells pair with the wrong row")
+    c = ctx.repo.cls("table:Table")
+    m = c.module
+    n = 0
+    for name, lst in c.methods.items():
+        for f in lst:
+            apps = [x for x in walk_local(f.node) if isinstance(x, ast.Call) and norm(x.func) == "self.columns.append" and len(x.args) == 1 and isinstance(x.args[0], ast.Name)]
+            if not apps:
+                continue
+            al = alias_map(f.node)
+            nested = {q.node.name: q for k, q in m.functions.items() if k.startswith(f.qualname + ".<locals>.")}
+            g = cfgmod.build(f.node)
+            for x in apps:
+                n += 1
+                col = x.args[0].id
+                st = x
+                while not isinstance(st, ast.stmt):
+                    st = m.parent_of[st]
+                # loops over self.rows whose body adds a cell to `col`
+                fills = set()
+                for lp in walk_local(f.node):
+                    if isinstance(lp, ast.For) and norm(lp.iter) == "self.rows":
+                        for y in ast.walk(lp):
+                            if isinstance(y, ast.Call):
+                                fn_ = norm(expand_alias(y.func, al)) if isinstance(y.func, ast.Name) else norm(y.func)
+                                direct = fn_ in (f"{col}._cells.append",)
+                                via = isinstance(y.func, ast.Name) and y.func.id in nested and y.args and norm(y.args[0]) == col and any(
+                                    isinstance(z, ast.Call) and norm(z.func).endswith("._cells.append") for z in ast.walk(nested[y.func.id].node))
+                                if direct or via:
+                                    fills |= set(g.nodes_of(lp))
+                    if isinstance(lp, ast.Call) and norm(lp.func) == f"{col}._cells.extend" and lp.args and any(isinstance(z, (ast.GeneratorExp, ast.ListComp)) and any(norm(g_.iter) == "self.rows" for g_ in z.generators) for z in ast.walk(lp.args[0])):
+                        st2 = lp
+                        while not isinstance(st2, ast.stmt):
+                            st2 = m.parent_of[st2]
+                        fills |= set(g.nodes_of(st2))
+                    if isinstance(lp, ast.Call) and norm(lp.func) == f"{col}._cells.extend" and lp.args and isinstance(lp.args[0], ast.BinOp) and isinstance(lp.args[0].op, ast.Mult) and "len(self.rows)" in norm(lp.args[0]):
+                        st2 = lp
+                        while not isinstance(st2, ast.stmt):
+                            st2 = m.parent_of[st2]
+                        fills |= set(g.nodes_of(st2))
+                creates = [nd.id for nd in g.stmt_nodes() if nd.kind == "stmt" and isinstance(nd.stmt, ast.Assign) and any(isinstance(t_, ast.Name) and t_.id == col for t_ in nd.stmt.targets)]
+                tgt = set(g.nodes_of(st))
+                ok = bool(fills) and bool(creates) and not any(tgt & g.reach([c_], avoid=fills) for c_ in creates)
+                ctx.check(ok, f.fq, short(st), f"{m.relpath}:{x.lineno}", f"`{col}` gets one blank cell per existing row before it joins the table",
+                          f"`{short(st)}` adds a column to a table that may already have rows without giving it a cell for each of them (add_row back-fills the columns it creates): Table('a'); add_row('r1'); add_row('r2'); add_column('b') renders no rows at all, and the next add_row('r3', 'x') shows `r1 | x`")
+    ctx.floor(n, 2, "sites that append a Column to Table.columns")
+
+
+RULES = [r7_1, r7_2, r7_3, r7_4, r7_5, r7_6, r7_7, r7_8, r7_9, r7_10, r7_11, r7_12, r7_13, r7_14, r7_15, r7_16, r7_17, r7_18, r7_19, r7_20]
